@@ -185,6 +185,7 @@ static Verdict enumerate(int tier, int shard, int nshards, Fields *failing) {
   (void)tier;
   for (unsigned present = 0; present < 31; present++) {
     if ((int)(present % (unsigned)nshards) != shard) continue;
+    { Fields c; c.seti("incomplete", present); note_case(c); }
     Verdict v = Verdict::pass();
     for (int state = 0; state < 3 && v.kind == Verdict::PASS; state++) {
       v = incomplete_one<Api<char>>(present, state);
